@@ -13,7 +13,7 @@ CONSTANTS
     WrapUser = TRUE
     TruncNext = TRUE
     CloneSharesGB = TRUE
-    Strict = FALSE
+    Strict = "report"
 INVARIANTS
     OnlyDeclaredDBRPs
     HistoricalEqualsLive
